@@ -1311,7 +1311,7 @@ func boolBodyAsExpr(info *types.Info, fd *ast.FuncDecl, sig *types.Signature) as
 		case isC && tv.Value != nil && tv.Value.String() == "true":
 			acc = mk(&ast.BinaryExpr{X: paren(ifs.Cond), Op: token.LOR, Y: paren(acc)})
 		case isC && tv.Value != nil && tv.Value.String() == "false":
-			acc = mk(&ast.BinaryExpr{X: mk(&ast.UnaryExpr{Op: token.NOT, X: paren(ifs.Cond)}), Op: token.LAND, Y: paren(acc)})
+			acc = mk(&ast.BinaryExpr{X: negateCond(info, ifs.Cond), Op: token.LAND, Y: paren(acc)})
 		default:
 			return nil
 		}
@@ -1370,4 +1370,34 @@ func foldBoolConsts(info *types.Info, root ast.Expr) ast.Expr {
 		return true
 	})
 	return holder.X
+}
+
+// negateCond writes the negation of a condition the way a person would: the
+// complementary comparison for a comparison, x for !x, !(e) otherwise.
+func negateCond(info *types.Info, e ast.Expr) ast.Expr {
+	boolT := types.TypeAndValue{Type: types.Typ[types.Bool]}
+	switch x := ast.Unparen(e).(type) {
+	case *ast.BinaryExpr:
+		flip := map[token.Token]token.Token{token.EQL: token.NEQ, token.NEQ: token.EQL, token.LSS: token.GEQ, token.GEQ: token.LSS, token.GTR: token.LEQ, token.LEQ: token.GTR}
+		if op, ok := flip[x.Op]; ok {
+			n := &ast.BinaryExpr{X: x.X, Op: op, Y: x.Y, OpPos: x.OpPos}
+			info.Types[n] = boolT
+			return n
+		}
+	case *ast.UnaryExpr:
+		if x.Op == token.NOT {
+			return x.X
+		}
+	}
+	var inner ast.Expr = e
+	switch e.(type) {
+	case *ast.Ident, *ast.CallExpr, *ast.ParenExpr, *ast.SelectorExpr:
+	default:
+		p := &ast.ParenExpr{X: e}
+		info.Types[p] = boolT
+		inner = p
+	}
+	n := &ast.UnaryExpr{Op: token.NOT, X: inner}
+	info.Types[n] = boolT
+	return n
 }
